@@ -15,6 +15,16 @@ Definition chk_get_aero (o : orc) (q : quat float) (v w : v3 float) (ea eb eV : 
 Definition chk_set_aero (o : orc) (q : quat float) (v w : v3 float) (a b V : option float) (e : v3 float) : bool :=
   v3_bits (set_aero_state (olookup (tc o)) (olookup (ts o)) (olookup (tt o)) (olookup (ta o)) (olookup (tas o))
              (olookup2 (ta2 o)) (d2r o) (r2d o) q v w a b V) e.
+(* exact-argument lookup, falling back to the nearest entry within a few ulp: the code squares with ** (libm pow), the model with a
+   product, and the two sums of squares can differ in the last bit *)
+Fixpoint onear1 (tbl : list (float * float)) (x : float) (best : float * float) : float * float :=
+  match tbl with
+  | [] => best
+  | (a, r) :: t => let d := abs (a - x) in if PrimFloat.ltb d (fst best) then onear1 t x (d, r) else onear1 t x best
+  end.
+Definition olookup_near (tbl : list (float * float)) (x : float) : float :=
+  let '(d, r) := onear1 tbl x (infinity, nan) in if PrimFloat.leb d (0x1p-50 * abs x) then r else nan.
+
 Definition chk_set_state (o : orc) (oi : orient_in) (vin : vel_in) (fr : frame_in) (w_raw wind : v3 float)
            (eq_ : quat float) (ev ew : v3 float) : bool :=
   let q := parse_orientation (olookup (tc o)) (olookup (ts o)) (d2r o) oi in
@@ -22,4 +32,4 @@ Definition chk_set_state (o : orc) (oi : orient_in) (vin : vel_in) (fr : frame_i
   (* velocity and rates are computed from the quaternion the code itself stored, so that the BLAS
      rounding of np.linalg.norm does not propagate into a bit-exact comparison *)
   v3_bits (parse_velocity (olookup (tc o)) (olookup (ts o)) (olookup (tt o)) (olookup (ta o)) (d2r o) eq_ vin wind) ev &&
-  v3_bits (parse_rates (olookup (tc o)) (olookup (ts o)) (olookup (tas o)) (olookup2 (ta2 o)) (d2r o) eq_ wind vin fr w_raw) ew.
+  v3_bits (parse_rates (olookup (tc o)) (olookup (ts o)) (olookup_near (tas o)) (olookup2 (ta2 o)) (d2r o) eq_ wind vin fr w_raw) ew.
